@@ -157,18 +157,40 @@ def observe(ctx, spec, with_pool):
         accepted("object->cache", src=lib)
         accepted("filename n_batches=3", src=fn, n_batches=3)
         accepted("filename n_batches=N+1", src=fn, n_batches=N + 1)
+        # the iterative sampler in a two-round configuration in which every path evaluates the same rows (first 3 rows, then -- the
+        # request being the whole library -- all the rest): equal seeds, equal accepted sets in memory and through the cache
+        acc_it = []
+        if N >= 5:
+            for label, kw in (("iterative, in memory", dict(src=lib, in_memory=True)), ("iterative, object->cache", dict(src=lib)),
+                              ("iterative, filename n_batches=3", dict(src=fn, n_batches=3))):
+                src = kw.pop("src")
+                res = J(seed=55).iterative_rejection_sample(data, src, n_requested_samples=N, init_batch_size=3, n_linear_samples=1, **kw)
+                acc_it.append((label, sorted(np.asarray(res["P"].to_value(u.day), float).tolist())))
+        # the same with a shuffled evaluation order (equal seeds draw the same order): the accepted set cannot depend on how the
+        # shuffled rows are cut into batches
+        acc_sh = []
+
+        def accepted_shuffled(label, **kw):
+            pool = kw.pop("pool", None)
+            res = J(pool=pool, seed=77).rejection_sample(data, fn, n_linear_samples=1, randomize_prior_order=True, **kw)
+            acc_sh.append((label, sorted(np.asarray(res["P"].to_value(u.day), float).tolist())))
+
+        for nb in (1, 3, N - 1):
+            if nb >= 1:
+                accepted_shuffled(f"shuffled order, filename n_batches={nb}", n_batches=nb)
         if with_pool:
             import schwimmbad
 
             pool = schwimmbad.MultiPool(processes=2)
             try:
+                accepted_shuffled("shuffled order, MultiPool(2) filename n_batches=4", n_batches=4, pool=pool)
                 for nb in (2, 5):
                     obs.append((f"MultiPool(2) filename n_batches={nb}", nb, np.asarray(J(pool=pool).marginal_ln_likelihood(data, fn, n_batches=nb), float)))
                 obs.append(("MultiPool(2) object->cache n_batches=None", None, np.asarray(J(pool=pool).marginal_ln_likelihood(data, lib), float)))
                 accepted("MultiPool(2) filename n_batches=4", src=fn, n_batches=4, pool=pool)
             finally:
                 pool.close()
-    return dict(base=base, obs=obs, acc=acc, N=N, lib=lib, data=data, prior=prior, conv=conv)
+    return dict(base=base, obs=obs, acc=acc, acc_sh=acc_sh, acc_it=acc_it, N=N, lib=lib, data=data, prior=prior, conv=conv)
 
 
 def run_cases(ctx, specs):
@@ -209,6 +231,20 @@ def run_cases(ctx, specs):
             if a != ref:
                 ctx.fail("predicate", SIG, f"accepted prior samples differ for equal seeds: in-memory accepts {len(ref)} rows {ref[:4]}.., path `{label}` accepts {len(a)} rows {a[:4]}..",
                          case=dict(spec, path=label))
+        if o.get("acc_it"):
+            ref_it = o["acc_it"][0][1]
+            for label, a in o["acc_it"][1:]:
+                n_paths += 1
+                if a != ref_it:
+                    ctx.fail("predicate", SIG, f"iterative sampler, two rounds over the whole library, equal seeds: in memory accepts {len(ref_it)} rows {ref_it[:4]}.., `{label}` accepts {len(a)} rows {a[:4]}..",
+                             case=dict(spec, path=label))
+        if o.get("acc_sh"):
+            ref_sh = o["acc_sh"][0][1]
+            for label, a in o["acc_sh"][1:]:
+                n_paths += 1
+                if a != ref_sh:
+                    ctx.fail("predicate", SIG, f"shuffled evaluation order, equal seeds: `{o['acc_sh'][0][0]}` accepts {len(ref_sh)} rows {ref_sh[:4]}.., `{label}` accepts {len(a)} rows {a[:4]}..",
+                             case=dict(spec, path=label))
         # two rows against the generated kernel model / closed form
         import astropy.units as u
 
